@@ -175,12 +175,11 @@ Section Conv.
     else Ok (coo_make sorted hasdup prune sh coords data fill).
 
   (* COO.from_iter on index/value pairs (a dict's items, or an iterable of pairs, or (data, coords)):
-     0-d keys `()` make np.array([()]) a float array, which the integer-dtype test rejects *)
+     the keys become the coordinate matrix, the constructor sorts and sums.  (0-d keys `()`: the empty
+     coordinate array NumPy builds is cast to intp since fix e0a1c30, so they are accepted like any
+     other.) *)
   Definition from_iter_pairs (sh : shape) (items : list (idx * V)) (fill : V) : res (coo V) :=
-    match sh, items with
-    | [], _ :: _ => Raise ValueError
-    | _, _ => coo_make_checked false true false sh (map fst items) (map snd items) fill
-    end.
+    coo_make_checked false true false sh (map fst items) (map snd items) fill.
 
   (* COO.reshape (same size): linear location, then the strided unravel; flags sorted=True,
      has_duplicates=False *)
@@ -405,12 +404,6 @@ Section Conv.
   (* every intermediate result, for the correspondence *)
   Fixpoint run_trace (x : res repr) (hops : list fmt) : list (res repr) :=
     match hops with [] => [] | f :: r => let y := step x f in y :: run_trace y r end.
-
-  Definition is_dok_fmt (f : fmt) : bool := match f with FDok => true | _ => false end.
-
-  (* domain clause (finding: a 0-d DOK holding an element cannot be converted to COO) *)
-  Definition dok0d_clause (sh : shape) (hops : list fmt) : bool :=
-    negb (is_nil sh) || negb (existsb is_dok_fmt hops).
 
   (* a hop the code accepts on an array of shape sh *)
   Definition hop_okb (sh : shape) (f : fmt) : bool :=
